@@ -62,8 +62,9 @@ class UpdatableRandomRange:
         if self.cur_max <= self.orig_max:
             raise StopIteration()
 
-        self.min = self.orig_max
-        self.num_generator = random_range(self.min, self.cur_max)
+        # keep self.min: set_new_range() compares against it to recognise
+        # a request that only raises the top of the range
+        self.num_generator = random_range(self.orig_max, self.cur_max)
         self.orig_max = self.cur_max
         return next(self.num_generator)
 
